@@ -6,10 +6,14 @@
 package rl
 
 import (
+	"flag"
 	"fmt"
+	"io"
+	"log"
 	"os"
 	"path/filepath"
 	"strings"
+	"sync"
 
 	"github.com/facebookincubator/dns/dnsrocks/dnsdata/cdb"
 	"github.com/facebookincubator/dns/dnsrocks/dnsdata/rdb"
@@ -27,7 +31,90 @@ type File struct {
 type World struct {
 	Dir     string
 	Backend string // "cdb" | "rdb1" | "rdb2"
+	Pool    *Pool  // optional: compiled generations are copied from templates
 	seq     int
+}
+
+// Pool compiles every (backend, generation) once with the real compiler; worlds copy
+// the result (a closed RocksDB directory / a cdb file is a plain copyable artifact).
+type Pool struct {
+	Dir  string
+	mu   sync.Mutex
+	done map[string]*tpl
+}
+
+type tpl struct {
+	once sync.Once
+	path string
+	err  error
+}
+
+// Template returns the path of the compiled template of f for the backend.
+func (p *Pool) Template(backend string, f File) (string, error) {
+	key := fmt.Sprintf("%s-s%d-k%v", backend, f.Stamp, f.Key)
+	p.mu.Lock()
+	if p.done == nil {
+		p.done = map[string]*tpl{}
+	}
+	t, ok := p.done[key]
+	if !ok {
+		t = &tpl{}
+		p.done[key] = t
+	}
+	p.mu.Unlock()
+	t.once.Do(func() {
+		w := &World{Dir: filepath.Join(p.Dir, key), Backend: backend}
+		if t.err = os.MkdirAll(w.Dir, 0o755); t.err != nil {
+			return
+		}
+		if t.err = w.Create(0, f); t.err != nil {
+			return
+		}
+		t.path = w.Path(0)
+	})
+	return t.path, t.err
+}
+
+func copyFile(src, dst string) error {
+	in, err := os.Open(src)
+	if err != nil {
+		return err
+	}
+	defer in.Close()
+	out, err := os.Create(dst)
+	if err != nil {
+		return err
+	}
+	if _, err := io.Copy(out, in); err != nil {
+		out.Close()
+		return err
+	}
+	return out.Close()
+}
+
+func copyTree(src, dst string) error {
+	if err := os.MkdirAll(dst, 0o755); err != nil {
+		return err
+	}
+	ents, err := os.ReadDir(src)
+	if err != nil {
+		return err
+	}
+	for _, e := range ents {
+		if e.IsDir() {
+			if err := copyTree(filepath.Join(src, e.Name()), filepath.Join(dst, e.Name())); err != nil {
+				return err
+			}
+			continue
+		}
+		if e.Name() == "LOCK" || e.Name() == "LOG" || strings.HasPrefix(e.Name(), "LOG.old") {
+			continue
+		}
+		if err := copyFile(filepath.Join(src, e.Name()), filepath.Join(dst, e.Name())); err != nil {
+			return err
+		}
+	}
+	return nil
 }
 
 // Driver is the db driver name of the backend.
@@ -142,6 +229,20 @@ func (w *World) Create(p int, f File) error {
 		}
 		return os.WriteFile(filepath.Join(dst, "CURRENT"), []byte("MANIFEST-999999\n"), 0o644)
 	}
+	if w.Pool != nil {
+		t, err := w.Pool.Template(w.Backend, f)
+		if err != nil {
+			return err
+		}
+		if w.Backend == "cdb" {
+			tmp := w.tmp(".cdb")
+			if err := copyFile(t, tmp); err != nil {
+				return err
+			}
+			return os.Rename(tmp, dst)
+		}
+		return copyTree(t, dst)
+	}
 	in := w.tmp(".in")
 	if err := os.WriteFile(in, []byte(DataText(f)), 0o644); err != nil {
 		return err
@@ -177,4 +278,18 @@ func (w *World) Update(p int, old, new File) error {
 	}
 	defer os.Remove(d)
 	return rdb.ApplyDiff(d, w.Path(p))
+}
+
+// Stderr is the process's real standard error (QuietLogs points os.Stderr elsewhere).
+var Stderr io.Writer = os.Stderr
+
+// QuietLogs silences the loggers of the code under test: glog would otherwise create
+// files in the temp directory and fsync every error line; the compilers log through log.
+func QuietLogs() {
+	Stderr = os.NewFile(uintptr(2), "/dev/stderr")
+	flag.Set("logtostderr", "true")
+	if null, err := os.OpenFile(os.DevNull, os.O_WRONLY, 0); err == nil {
+		os.Stderr = null
+	}
+	log.SetOutput(io.Discard)
 }
